@@ -256,6 +256,9 @@ func (e *Term) writeTo(s *strings.Builder) {
 }
 
 func (e *Term) toIndexKey() any {
+	if len(e.SuffixList) > 0 {
+		return nil // "abc"[1:] is not the constant "abc"
+	}
 	switch e.Type {
 	case TermTypeNumber:
 		return toNumber(e.Number)
@@ -293,7 +296,7 @@ func (e *Term) toIndices(xs []any) []any {
 }
 
 func (e *Term) toNumber() any {
-	if e.Type == TermTypeNumber {
+	if e.Type == TermTypeNumber && len(e.SuffixList) == 0 {
 		return toNumber(e.Number)
 	}
 	return nil
